@@ -435,7 +435,7 @@ func c02Static(in *jsAnalysis, out string, c jsConfig) string {
 	if err != nil {
 		return "" // compile problems are reported by the execution monitor
 	}
-	if x, ok := subset(oa.Free, in.Free); !ok && x != "undefined" {
+	if x, ok := subset(oa.Free, in.Free); !ok && x != "undefined" && x != "NaN" && x != "Infinity" {
 		return fmt.Sprintf("output has a free identifier %q that the input does not have (a renamed local leaked, or a global was renamed)", x)
 	}
 	if !sameSet(append(append([]string{}, oa.TopVar...), oa.TopLexical...), append(append([]string{}, in.TopVar...), in.TopLexical...)) {
